@@ -4,11 +4,12 @@ from ..core.model import AnalysisError, Program
 from ..core.report import CheckContext
 from ..core.resolve import Resolver
 from ..rules import api, classflow, readers, sheetnames
-from .common import run_control
+from .common import run_control, generic_rules
 
 
 def analyse(ctx: CheckContext, p: Program):
     r = Resolver(p)
+    generic_rules(ctx, p, r, "C16")
     pp = p.find_class("PinchProblem")
     if pp is None:
         raise AnalysisError("PinchProblem not found")
